@@ -33,12 +33,25 @@ static int verif_sscanf_ipv4(const char *s, const char *fmt, uint16_t *o0, uint1
     g_scan_ret = k;
     return k;
 }
+#ifndef VERIF_IPV6_DFCC
+/* ASSUMED (libc): memchr, modelled by its reference loop (CBMC 6.11 has no model of memchr: the result would be arbitrary) */
+void *memchr(const void *s, int c, size_t n) {
+    const uint8_t *p = (const uint8_t *)s;
+    for (size_t i = 0; i < n; ++i) {
+        if (p[i] == (uint8_t)c) {
+            return (void *)(p + i);
+        }
+    }
+    return NULL;
+}
+#endif
 #define sscanf verif_sscanf_ipv4
 #include "source/byte_buf.c"
 #include "source/host_utils.c"
 #undef sscanf
 
 #ifndef VERIF_IPV6_DFCC
+#define SPEC_ISHEX6(c) (((c) >= '0' && (c) <= '9') || ((c) >= 'a' && (c) <= 'f') || ((c) >= 'A' && (c) <= 'F'))
 void h_is_ipv4(void) {
     GHOST_RESET_COMMON();
     g_scan_ret = -2;
@@ -56,6 +69,30 @@ void h_is_ipv4(void) {
     __CPROVER_assert(g_raise_count == 0, "a predicate: no error code is registered");
     if (r) CANARY("accepted"); else if (len > 15) CANARY("too long"); else if (g_scan_ret == 4) CANARY("octet out of range"); else CANARY("not four numbers");
 }
+/* aws_host_utils_is_ipv6, BOUNDED: every host text of at most IPV6_BOUND bytes (the IPv6 part itself is limited to 39 bytes by
+ * the code; the bound is on the whole text including "%zone"), both values of is_uri_encoded; real callees
+ * (aws_byte_cursor_next_split, aws_byte_cursor_satisfies_pred, aws_byte_cursor_starts_with, memchr/memcmp models of CBMC). */
+#ifndef IPV6_BOUND
+#    define IPV6_BOUND 44
+#endif
+void h_is_ipv6_bounded(void) {
+    GHOST_RESET_COMMON();
+    size_t len = nondet_size_t();
+    __CPROVER_assume(len <= IPV6_BOUND);
+    /* one spare byte behind the text: aws_byte_cursor_next_split forms (never dereferences) the address two past the end of a
+     * text that ends with its last piece - see the C01 unit next_split_at_end; a one-byte over-READ is therefore not seen by the
+     * bounds checks of this unit (the two indexed reads ptr[1] / ptr[len-2] are covered by the assertions below) */
+    uint8_t *bytes = malloc(len + 1);
+    __CPROVER_assume(bytes != NULL);
+    struct aws_byte_cursor host = {.len = len, .ptr = (len == 0 && nondet_bool()) ? NULL : bytes};
+    bool enc = nondet_bool();
+    bool r = aws_host_utils_is_ipv6(host, enc);
+    __CPROVER_assert(r ==> len >= 2 && (bytes[0] == ':' || SPEC_ISHEX6(bytes[0])), "accepted: at least \"::\", starting with a hex digit or a colon");
+    __CPROVER_assert(r && bytes[0] == ':' ==> bytes[1] == ':', "no single colon at the start");
+    __CPROVER_assert(g_raise_count == 0, "a predicate: no error code is registered");
+    if (r && len > 41) CANARY("address with zone accepted"); else if (r) CANARY("address accepted"); else CANARY("refused");
+}
+
 /* the NULL-with-zero-length view: memcpy(copy, NULL, 0) moves no byte (CBMC's memcpy model rejects NULL even for n == 0) */
 void h_is_ipv4_null(void) {
     GHOST_RESET_COMMON();
